@@ -106,6 +106,12 @@ def emit(result, tier, seed, t0, level="other", technique=""):
     und = [o for o in result.obs if o.status == UNDECIDED]
     held = [o for o in result.obs if o.status == HOLDS]
     n_inst = len({(o.rule, o.construct) for o in result.obs})
+    global EVIDENCE_DIR
+    from .core.source import REPO as _REPO
+    if os.path.realpath(result.repo.root) != os.path.realpath(_REPO):
+        # a development run against a scratch copy (--root): never overwrite the evidence of /repo
+        import tempfile
+        EVIDENCE_DIR = os.path.join(tempfile.gettempdir(), "sa_scratch_evidence")
     print("ANALYSED property=%s tier=%s rules=%d obligations=%d instances=%d functions=%d digest=%s"
           % (prop, tier, len({o.rule for o in result.obs}), len(result.obs), n_inst,
              len(result.functions), result.repo.digest[:12]))
